@@ -22,6 +22,90 @@ from .. import pathai
 NONELIDABLE = {"explicit_bzero", "memset_s", "memset_explicit", "explicit_memset", "SecureZeroMemory"}
 
 
+def or_tree(t, load_addr, acc_roots, params):
+    """set of difference atoms if t is an OR-accumulation of per-position differences, else None.
+    atoms: 'PREV' (previous accumulator value), ('D', offset linear form) for x[off] ^ y[off] or a single n[off]"""
+    while t[0] == "cast" or (t[0] == "op" and t[1] in ("bitcast", "zext", "sext", "trunc") and len(t) == 3):
+        t = t[2]
+    if t[0] == "c":
+        return set() if t[1] == 0 else None
+    if t[0] == "op" and t[1] in ("zeroinitializer",):
+        return set()
+    if t[0] == "load":
+        a = load_addr.get(t)
+        if a is None:
+            return None
+        r = T.root(a)
+        if r in acc_roots:
+            return {"PREV"}
+        if r in params:
+            return {("D", str(sorted((str(k), v) for k, v in T.linear(a)[0].items() if k != r)), T.linear(a)[1])}
+        return None
+    k = t[1] if t[0] in ("bin", "op") else None
+    if k == "xor":
+        a, b = t[2], t[3]
+        sa = or_tree(a, load_addr, acc_roots, params)
+        sb = or_tree(b, load_addr, acc_roots, params)
+        # only x[off] ^ y[off]: two single loads of the same position of the two operands
+        if sa is not None and sb is not None and len(sa) == 1 and len(sb) == 1 and "PREV" not in sa and "PREV" not in sb:
+            (da,), (db,) = sa, sb
+            if da[1:] == db[1:] and _is_single_load(a) and _is_single_load(b):
+                return {da}
+        return None
+    if k == "or":
+        sa = or_tree(t[2], load_addr, acc_roots, params)
+        sb = or_tree(t[3], load_addr, acc_roots, params)
+        if sa is None or sb is None:
+            return None
+        return sa | sb
+    return None
+
+
+def _is_single_load(t):
+    while t[0] == "cast" or (t[0] == "op" and t[1] in ("bitcast", "zext", "sext", "trunc") and len(t) == 3):
+        t = t[2]
+    return t[0] == "load"
+
+
+def accumulation_rule(prog, chk, fn, paths_, params, what, tag=""):
+    """R14.3: wherever per-position differences of the operands are combined into an accumulator, the
+    combiner is OR (differences can never cancel each other)"""
+    n = 0
+    for p in paths_:
+        load_addr = {}
+        for e in p.events:
+            if e.kind == "load" and e.res is not None and e.res[0] == "load" and e.res not in load_addr:
+                load_addr[e.res] = e.addr       # the originating load (later reloads of a forwarded copy do not count)
+        acc_roots = {T.root(e.addr) for e in p.events if e.kind == "store" and T.root(e.addr)[0] == "alloca"}
+        seen_loads = {}
+        for e in p.stores():
+            r = T.root(e.addr)
+            if r[0] != "alloca":
+                continue
+            oper = {l for l in T.leaves(e.val) if l in load_addr and T.root(load_addr[l]) in set(params)}
+            fresh = oper - seen_loads.get(r, set())
+            seen_loads.setdefault(r, set()).update(oper)
+            if not fresh:
+                continue        # reduction of the finished accumulator (d--, shifts, mask), not an accumulation step
+            roots = {T.root(load_addr[l]) for l in T.leaves(e.val) if l in load_addr}
+            if not (roots & set(params)):
+                continue
+            # a value derived from operand bytes is being accumulated
+            if not any(x in ("PREV",) for x in ()) and len(roots & set(params)) == 0:
+                continue
+            tr = or_tree(e.val, load_addr, acc_roots, set(params))
+            if tr is not None and len(tr - {"PREV"}) == 0:
+                continue
+            # plain copies of one operand lane (v1 = load x) are not accumulations
+            if _is_single_load(e.val):
+                continue
+            n += 1
+            chk.ob("R14.3", fn, "%s: per-position differences are combined with OR only (no cancellation)%s" % (what, tag), tr is not None,
+                   loc=fn.loc(e.iid), detail="" if tr is not None else "accumulated value is not an OR of x[i]^y[i] terms: %s" % T.show(e.val, fn)[:300],
+                   path=None, key="R14.3 %s accumulator" % fn.sname)
+    return n
+
+
 def verify_rules(prog, chk, tag=""):
     n = 0
     for N in (16, 32, 64):
@@ -45,6 +129,7 @@ def verify_rules(prog, chk, tag=""):
             wp = [q for q in ai.run() if q.kind == "ret"]
             chk.ob("R14.1", w, "worker has a single path for n = %d (no data-dependent exit)" % N + tag, len(wp) == 1,
                    detail="%d paths" % len(wp), key="R14.1 crypto_verify_n n=%d paths" % N)
+            accumulation_rule(prog, chk, w, wp, [("arg", 0), ("arg", 1)], "crypto_verify_n n=%d" % N, tag)
             for q in wp:
                 for ai_, nm in ((0, "x"), (1, "y")):
                     n += 1
@@ -77,6 +162,9 @@ def run(ctx, chk):
             ok, desc = e9.coverage(f2, fn.params[oi]["name"], fn.params[ln]["name"])
             chk.ob("R14.1-scan", fn, "%s reads exactly [0, %s) of operand %s with no early exit" % (name, fn.params[ln]["name"], fn.params[oi]["name"]),
                    ok, detail=desc, key="R14.1-scan %s %s" % (name, "ab"[oi]))
+        if name != "sodium_compare":
+            k3 = accumulation_rule(prog, chk, fn, [p for p in cm.paths(prog, fn) if p.kind == "ret"], [("arg", i) for i in ops], name)
+            chk.floor("R14.3", "accumulating stores in %s" % name, k3, 1)
         # the loads feed the result (O0 dependence)
         for p in cm.paths(prog, fn):
             if p.kind != "ret" or not any(e.kind == "load" and T.root(e.addr) == ("arg", 0) for e in p.events):
